@@ -23,6 +23,9 @@
      "removealways"  remove_dead_unique_reference deletes the entry without checking that its
                      weak reference is dead (it may belong to a newer object)
      "nodeadcheck"   the lookup does not test whether the weak reference is dead
+     "key-from-raw-args"  new_function_type builds the key from the caller's argument types instead of
+                     the decayed ones stored in the new ctype (an array parameter: the key holds the
+                     address of the array ctype, which the function ctype does not keep alive)
      "keyholdsnothing" (py) the key does not keep the components alive *)
 EXTENDS UniqueCacheIdeal, TLC
 CONSTANTS Addrs, MaxSer, Mode, Variant, GcAtomic,
@@ -83,12 +86,15 @@ Event(op, s, d, req) == ev' = [op |-> op, s |-> s, d |-> d, req |-> req, agg |->
 \* ------------------------------------------------------------------ requests
 \* new_primitive_type / new_pointer_type / new_array_type / new_function_type -> get_unique_type;
 \* the components are objects the program holds
-Request(kind, comps, n) ==
+\* raw: the ctypes the program passes (it holds them); comps: what the new ctype stores and keeps alive
+\* (the same, except that new_function_type stores an array parameter decayed to its pointer type)
+RequestX(kind, comps, n, raw) ==
     /\ (win # 0 => obj[win].st = "wrdead")        \* inside a dealloc: only from a weakref callback
     /\ Quiet
     /\ UNCHANGED win
-    /\ \A i \in DOMAIN comps : Alloc(comps[i]) /\ obj[comps[i]].st = "live" /\ obj[comps[i]].held
-    /\ LET k == Key(kind, comps, n)
+    /\ \A i \in DOMAIN raw : Alloc(raw[i]) /\ obj[raw[i]].st = "live" /\ obj[raw[i]].held
+    /\ \A i \in DOMAIN comps : Alloc(comps[i]) /\ obj[comps[i]].st = "live"
+    /\ LET k == Key(kind, IF Variant = "key-from-raw-args" THEN raw ELSE comps, n)
            d == Descr(kind, comps, n)
            hit == k \in DOMAIN cache /\ (cache[k].alive \/ Variant = "nodeadcheck")
        IN IF hit
@@ -106,11 +112,16 @@ Request(kind, comps, n) ==
                /\ nser' = nser + 1
                /\ Event("obtain", nser + 1, d, d)
 
+Request(kind, comps, n) == RequestX(kind, comps, n, comps)
+
 Held == {a \in Addrs : Alloc(a) /\ obj[a].st = "live" /\ obj[a].held}
+\* new_function_type: "if (o->ct_flags & CT_ARRAY) o = o->ct_stuff" (the array's pointer-to-item type)
+Dec(b) == IF obj[b].kind = "arr" THEN obj[b].comps[1] ELSE b
 ReqPrim(n) == n \in Prims /\ Request("prim", <<>>, n)
 ReqPtr(a) == a \in Held /\ Request("ptr", <<a>>, 0)
 ReqArr(a) == a \in Held /\ obj[a].kind = "ptr" /\ Request("arr", <<a>>, 2)
-ReqFn(a, b) == a \in Held /\ b \in Held /\ Request("fn", <<a, b>>, 0)
+ReqFn(a, b) == /\ a \in Held /\ b \in Held /\ obj[a].kind # "arr"        \* a function cannot return an array
+               /\ RequestX("fn", <<a, Dec(b)>>, 0, <<a, b>>)
 
 \* ------------------------------------------------------------------ the program drops references
 DropRef(a) == /\ win = 0 /\ Quiet /\ a \in Held /\ obj' = [obj EXCEPT ![a].held = FALSE]
